@@ -1,4 +1,5 @@
 #![allow(dead_code)]
+mod cluster;
 mod core;
 mod e2;
 mod gate;
@@ -40,6 +41,9 @@ fn registry() -> Vec<PartDesc> {
     v.push(desc::<props::factory::C15>("exploration"));
     v.push(desc::<props::factory::C15Bucket>("exploration"));
     v.push(desc::<props::c16::C16>("exploration"));
+    v.push(desc::<props::c17::C17Fsm>("exploration"));
+    v.push(desc::<props::c17::C17FsmX>("exploration"));
+    v.push(desc::<props::c17::C17Adv>("exploration"));
     #[cfg(not(feature = "v2"))]
     v.push(foreign("C16", "e1-v2", "v2", "exploration"));
     #[cfg(feature = "async-trait")]
